@@ -1,5 +1,5 @@
 ------------------------------- MODULE MC_C07 -------------------------------
-EXTENDS ActionsI, TLC
+EXTENDS ActionsI, TLC, TLCExt
 
 H(seq) == seq
 A(k, h, st, b, p, ho, q, rm) == [k |-> k, h |-> h, st |-> st, b |-> b, p |-> p, ho |-> ho, q |-> q, rm |-> rm]
@@ -39,6 +39,11 @@ RespLarge ==
     \cup {A("modresp", h, st, b, "", "", "", <<>>) : h \in Maps5, st \in {200, 500}, b \in {"r1", "r2"}}
     \cup {A("modresp", <<>>, 0, "", "", "", "", <<>>)}
     \cup {A("retry", h, 0, "", "", "", "", <<>>) : h \in Maps5}
+
+\* non-vacuity witness: the cells <<side, kind of the accumulator, kind of the next action>> of the two pairwise tables
+\* that the exploration actually evaluated (register 2, -workers 1), printed by the POSTCONDITION of MC_small_cov.cfg
+CovAction == TLCSet(2, TLCGetOrDefault(2, {}) \cup {<<side, acc.k, s'[Len(s')].k>>})
+CovReport == TLCGet("stats").diameter >= 0 /\ PrintT(<<"CELLS", TLCGetOrDefault(2, {})>>)
 
 \* sanity of the property spec itself (evaluated once, at start-up)
 RelMaps == {Pairs(h) : h \in Maps9}
